@@ -90,9 +90,29 @@ fn main() {
     add("RRSIG empty signature", rec("a.", Rrsig::new(Rtype::A, SecurityAlgorithm::RSASHA256, 2, Ttl::from_secs(300), Timestamp::from(1700000000), Timestamp::from(20240101), 7, n("a."), b(b"")).unwrap().into()));
     add("NSEC", rec("a.", Nsec::new(n("b."), bm.clone()).into()));
     add("NSEC empty bitmap", rec("a.", Nsec::new(n("c."), empty_bm.clone()).into()));
+    // type lists around the window boundaries: the first and the last bit of windows 0, 1, 2, 128 and 255, alone and together
+    let edge_types = [1u16, 255, 256, 257, 511, 512, 767, 32768, 65280, 65535];
+    for (i, t) in edge_types.iter().enumerate() {
+        let mut one = RtypeBitmap::<Bytes>::builder();
+        one.add(Rtype::from_int(*t)).unwrap();
+        add(&format!("NSEC type list [{t}]"), rec("a.", Nsec::new(n("b."), one.finalize()).into()));
+        let mut upto = RtypeBitmap::<Bytes>::builder();
+        for u in &edge_types[..=i] {
+            upto.add(Rtype::from_int(*u)).unwrap();
+        }
+        add(&format!("NSEC type list {:?}", &edge_types[..=i]), rec("a.", Nsec::new(n("b."), upto.finalize()).into()));
+    }
     add("NSEC3", rec("a.", Nsec3::new(Nsec3HashAlgorithm::SHA1, 1, 10, Nsec3Salt::from_octets(b(b"\xab\xcd")).unwrap(), OwnerHash::from_octets(b(b"01234567890123456789")).unwrap(), bm.clone()).into()));
     add("NSEC3 no salt, empty bitmap", rec("a.", Nsec3::new(Nsec3HashAlgorithm::SHA1, 1, 10, Nsec3Salt::from_octets(b(b"")).unwrap(), OwnerHash::from_octets(b(b"0123456789012345678")).unwrap(), empty_bm.clone()).into()));
     add("NSEC3 1-octet hash", rec("a.", Nsec3::new(Nsec3HashAlgorithm::SHA1, 1, 10, Nsec3Salt::from_octets(b(b"\x00")).unwrap(), OwnerHash::from_octets(b(b"\xff")).unwrap(), empty_bm.clone()).into()));
+    // hashes of every length 1..=21 (all five tail shapes of Base32hex, twice), last octet with all / no low bits set
+    for len in 1..=21usize {
+        for last in [0xffu8, 0x00, 0x01, 0x80] {
+            let mut h = vec![0x5au8; len];
+            h[len - 1] = last;
+            add(&format!("NSEC3 {len}-octet hash ending in {last:#04x}"), rec("a.", Nsec3::new(Nsec3HashAlgorithm::SHA1, 0, 1, Nsec3Salt::from_octets(b(b"\x01")).unwrap(), OwnerHash::from_octets(Bytes::from(h)).unwrap(), bm.clone()).into()));
+        }
+    }
     add("NSEC3PARAM", rec("a.", Nsec3param::new(Nsec3HashAlgorithm::SHA1, 0, 65535, Nsec3Salt::from_octets(b(b"")).unwrap()).into()));
     add("NSEC3PARAM 255-octet salt", rec("a.", Nsec3param::new(Nsec3HashAlgorithm::SHA1, 0, 0, Nsec3Salt::from_octets(Bytes::from(vec![0xabu8; 255])).unwrap()).into()));
 
